@@ -31,6 +31,12 @@ def render(ctx, fn, e, depth=2):
     ty, ix = ctx.ty, ctx.ix
     if isinstance(e, ast.Attribute):
         base_t = ty.expr_type(fn, e.value)
+        if base_t and base_t[0] == "union":
+            # pick the first member class that defines the attribute
+            for m in base_t[1]:
+                if m and m[0] == "cls" and m[1] in ix.classes and e.attr in ix.class_members(ix.classes[m[1]]):
+                    base_t = m
+                    break
         if base_t and base_t[0] == "cls":
             c = ix.classes.get(base_t[1])
             if c is not None:
